@@ -588,7 +588,24 @@ def r13_refusal_point_first_and_fresh_cache(idx, r):
                       msg=f"`{norm(c)}` scales detailedNDens/pinNDens in place before any assignment a read-only collection could refuse: the call is refused (the assignment raises) but the vectors are already multiplied")
     if n < 1:
         raise AnchorMissing("callers of _changeOtherDensParamsByFactor")
-    b = idx.method("armi.reactor.composites.Composite", "backUp")
+    for b in [f_ for f_ in idx.all_funcs() if f_.name == "backUp" and f_.cls is not None and ".tests" not in f_.module.name
+              and any(isinstance(x, ast.Assign) and any(norm(t) == "self._backupCache" for t in x.targets) and "self.cached" in norm(x.value) for x in walk_local(f_.node))]:
+        _backup_fresh_cache(b, r)
+    se = idx.method("armi.reactor.composites.StateRetainer", "__exit__")
+    fl_ = Flow(se.node, lambda nd: ["restored"] if isinstance(nd, ast.Call) and call_attr(nd) == "_enterExitHelper" and "restoreBackup" in norm(nd) else []).run()
+    r.require(not fl_.must_at_normal_exits("restored"), "StateRetainer.__exit__:restores-however-the-scope-ends", se,
+              msg="a path leaves __exit__ without restoring the backups: a scope left through an exception keeps its edits and leaves its backups on the stacks, so an enclosing scope later pops the wrong one")
+    pc = idx.method("armi.reactor.parameters.parameterCollections.ParameterCollection", "__init__")
+    sts_ = [s_ for s_ in iter_stores(pc.node) if s_.kind == "subscript" and norm(s_.node.value) == "self.__dict__"]
+    if len(sts_) != 1:
+        raise AnchorMissing("ParameterCollection.__init__: self.__dict__[key] = val")
+    conds_ = [norm(t) for t, _p in path_conditions(pc.node, sts_[0].stmt) if "_state" not in norm(t)]
+    r.require(not conds_, "ParameterCollection.__init__:every-field-of-the-state-installed", pc, node=sts_[0].stmt,
+              msg=f"a field of the copied/unpickled state is only installed under {conds_}: the fields left out (`_hist`, the values kept under (name, timestep) keys) are missing in every deep copy")
+
+
+def _backup_fresh_cache(b, r):
+    cname = b.cls.name
 
     def ev2(nd):
         if isinstance(nd, ast.Assign) and any(norm(t) == "self._backupCache" for t in nd.targets) and "self.cached" in norm(nd.value):
@@ -598,10 +615,10 @@ def r13_refusal_point_first_and_fresh_cache(idx, r):
         return []
     fl = Flow(b.node, ev2).run()
     miss = fl.must_at_normal_exits("fresh") + fl.must_at_normal_exits("saved")
-    r.require(not miss, "Composite.backUp:live-cache-replaced-by-a-new-dict-on-every-path", b, node=miss[0].node if miss and miss[0].node is not None else b.node,
+    r.require(not miss, f"{cname}.backUp:live-cache-replaced-by-a-new-dict-on-every-path", b, node=miss[0].node if miss and miss[0].node is not None else b.node,
               msg="a path leaves backUp with the saved dict still installed as the live cache: what is cached inside the scope is written into the saved object and survives the roll-back")
     fresh = [x for x in walk_local(b.node) if isinstance(x, ast.Assign) and any(norm(t) == "self.cached" for t in x.targets)]
-    r.require(all((fl.state_before(x) or {}).get("saved", (0, 0))[0] >= 1 for x in fresh), "Composite.backUp:saved-before-replaced", b, msg="the live cache is set aside before it is replaced")
+    r.require(all((fl.state_before(x) or {}).get("saved", (0, 0))[0] >= 1 for x in fresh), f"{cname}.backUp:saved-before-replaced", b, msg="the live cache is set aside before it is replaced")
 
 
 def r14_pairing(idx, r):
@@ -637,7 +654,7 @@ def run(idx, chk):
                  necessary="the roll-back completes for every object of the scope, whatever the kept values are")
     chk.run_rule("R16.12", "links are lifted out of every dimension before pickling; only the backup machinery clears the SINCE_BACKUP bit", lambda r: r12_links_and_flags(idx, r), floor=4,
                  necessary="after the scope every object is as before except the kept parameters, which keep their new values")
-    chk.run_rule("R16.13", "in-place scaling of density vectors comes after the guarded assignment; backUp installs a new cache dict on every path", lambda r: r13_refusal_point_first_and_fresh_cache(idx, r), floor=3,
+    chk.run_rule("R16.13", "in-place scaling of density vectors comes after the guarded assignment; backUp installs a new cache dict on every path", lambda r: r13_refusal_point_first_and_fresh_cache(idx, r), floor=7,
                  necessary="a refused mutation changes nothing; after a retain-state scope no value computed inside it is served")
     chk.run_rule("R16.14", "arguments stand at the parameter they are named after; sibling calls forward the same pass-through parameters", lambda r: r14_pairing(idx, r), floor=1,
                  necessary="the keep-set reaches restoreBackup")
